@@ -34,6 +34,7 @@ func TestVerif_C02_Sim(t *testing.T) {
 			}
 			cfgs = append(cfgs, cfg{"cfg=" + c + ";oracle=c02;nvar=4", d})
 		}
+		cfgs = append(cfgs, cfg{"cfg=ie;oracle=c02;nvar=5;npfx=1;src=0;flap=0;noapi;nopeers", 6}, cfg{"cfg=ce;oracle=c02;nvar=5;npfx=1;src=0;flap=0;noapi;nopeers", 6})
 	} else {
 		for _, c := range []string{"ee", "ea"} {
 			cfgs = append(cfgs, cfg{"cfg=" + c + ";oracle=c02;nvar=4", 3})
@@ -41,6 +42,10 @@ func TestVerif_C02_Sim(t *testing.T) {
 		for _, c := range []string{"ei", "ss", "eic", "e6"} {
 			cfgs = append(cfgs, cfg{"cfg=" + c + ";oracle=c02;nvar=4", 2})
 		}
+		// sharp driver: one iBGP source, one prefix, five variants (two of them refused by an input loop
+		// check: own AS in the path, own router id as ORIGINATOR_ID): a refused replacement must take the
+		// route it replaces out of every RIB
+		cfgs = append(cfgs, cfg{"cfg=ie;oracle=c02;nvar=5;npfx=1;src=0;flap=0;noapi;nopeers", 4})
 	}
 	budget := 60 * time.Second
 	if vr.Thorough() {
